@@ -33,7 +33,7 @@ type Sym struct {
 	Fields map[string]*Sym // for struct: explicit field values
 	Base   *Sym            // for struct: the value it was copied from (nil = zero value)
 	T      types.Type
-	NonNil bool // known never to be nil (a sentinel error variable)
+	NonNil bool          // known never to be nil (a sentinel error variable)
 	Fn     *ssa.Function // for a function constant: the function
 }
 
@@ -404,7 +404,8 @@ func (d *dtree) exec(st *dstate, in ssa.Instruction, b *ssa.BasicBlock) bool {
 					onStack = true
 				}
 			}
-			if !onStack && inline(d.fn, cal) {
+			// a helper with a loop cannot be interpreted path by path: it stays an opaque call
+			if !onStack && inline(d.fn, cal) && !hasBackEdge(cal) {
 				for i, p := range cal.Params {
 					st.env[p] = d.eval(st, x.Call.Args[i])
 				}
@@ -1012,4 +1013,16 @@ func (d *dtree) binop(st *dstate, x *ssa.BinOp) *Sym {
 func isIntegerType(t types.Type) bool {
 	b, ok := t.Underlying().(*types.Basic)
 	return ok && b.Info()&types.IsInteger != 0
+}
+
+// hasBackEdge reports whether fn's control flow graph has a loop.
+func hasBackEdge(fn *ssa.Function) bool {
+	for _, b := range fn.Blocks {
+		for _, s := range b.Succs {
+			if s.Dominates(b) {
+				return true
+			}
+		}
+	}
+	return false
 }
